@@ -60,6 +60,7 @@ MAY_ALWAYS_RAISE = {
     'copulas.bivariate.independence.Independence.percent_point': 'check_fit: theta is never set (NotFittedError)',
     'copulas.bivariate.base.Bivariate.probability_density': 'abstract (NotImplementedError)',
     'copulas.bivariate.base.Bivariate.cumulative_distribution': 'abstract (NotImplementedError)',
+    'copulas.bivariate.base.Bivariate.generator': 'abstract (NotImplementedError)',
     'copulas.multivariate.base.Multivariate.probability_density': 'abstract (NotImplementedError)',
     'copulas.multivariate.base.Multivariate.cumulative_distribution': 'abstract (NotImplementedError)',
     'copulas.univariate.base.Univariate.log_probability_density':
@@ -718,7 +719,11 @@ def fitted_then_used(m, X):
     """history: after `fit(X)` keep using the model (the argument must stay intact through later calls that
     do not receive it); returns the snapshot taken right after the fit"""
     st = state(m)
-    for name, args in (('sample', (3,)), ('cumulative_distribution', (X,)), ('probability_density', (X,)),
+    try:
+        X2 = copy.deepcopy(X)       # later calls get their OWN data: only what `fit` retained can reach `X`
+    except Exception:               # noqa
+        X2 = None
+    for name, args in (('sample', (3,)), ('cumulative_distribution', (X2,)), ('probability_density', (X2,)),
                        ('sample', (2,))):
         try:
             with np.errstate(all='ignore'):
@@ -785,9 +790,33 @@ def run_case(case):
             'reached': r1[0] == 'ok' or r1[1] != 'TypeError', 'result': r1[0] if r1[0] == 'ok' else r1[1]}
 
 
+def render(v):
+    """the argument as it was handed to the call (small values in full)"""
+    try:
+        if isinstance(v, np.ndarray):
+            return {'ndarray': v.tolist()} if v.size <= 60 else {'ndarray-shape': list(v.shape)}
+        if isinstance(v, pd.DataFrame):
+            return ({'DataFrame': v.to_numpy().tolist(), 'columns': [str(c) for c in v.columns],
+                     'index': [str(i) for i in v.index]} if v.size <= 60 else {'DataFrame-shape': list(v.shape)})
+        if isinstance(v, pd.Series):
+            return {'Series': v.tolist(), 'index': [str(i) for i in v.index]} if v.size <= 60 else \
+                {'Series-shape': list(v.shape)}
+        if isinstance(v, dict):
+            return {type(v).__name__: {str(k): (x if isinstance(x, (int, float, str)) else getattr(x, '__name__', repr(x)[:60]))
+                                       for k, x in v.items()}}
+        if isinstance(v, (list, tuple)):
+            return {type(v).__name__: [x if isinstance(x, (int, float, str)) else getattr(x, '__name__', repr(x)[:60])
+                                       for x in list(v)[:60]]}
+        if isinstance(v, (int, float, str, type(None))):
+            return v
+    except Exception:     # noqa
+        pass
+    return type(v).__name__
+
+
 def describe(case, res):
     return {'entry': case.entry, 'call': case.tag, 'kind': case.label,
-            'arguments': {k: type(v).__name__ for k, v in case.make_args().items()}}
+            'arguments': {k: render(v) for k, v in case.make_args().items()}}
 
 
 # ----------------------------------------------------------------------------------- static side
@@ -815,13 +844,12 @@ def static_verdicts(ctx, lean):
         classes = {(t[0], t[1]) for t in by_name[name]['tags']}
         group = [out[e['name']]['idx'] for e in an.entries
                  if e['name'] != name and any((t[0], t[1]) in classes for t in e['tags'])]
-        ws = lean.ask('effects session ' + ' '.join(str(i) for i in [s['idx']] + group)).split()
+        ws = lean.ask('effects lifetime ' + ' '.join(str(i) for i in [s['idx']] + group)).split()
         if ws[0] != 'ok':
-            raise RuntimeError(f'effects session for {name}: {" ".join(ws)[:200]}')
-        written = {int(w) for w in ws[2:]}
-        for pname, v, c in by_name[name]['params']:
-            if v in written or c in written:
-                s['params'][pname] = True
+            raise RuntimeError(f'effects lifetime for {name}: {" ".join(ws)[:200]}')
+        for j in range(int(ws[2])):
+            if ws[5 + 3 * j] == '1':
+                s['params'][ws[3 + 3 * j]] = True
         if any(s['params'].values()):
             s['verdict'] = 'reject'
         s['lifetime'] = len(group)
